@@ -11,7 +11,29 @@ RULE = ("random option lists (0..5 options: full palette replacements and single
 ASSUMPTIONS = ["color.RGBAModel.Convert is taken from Go: the harness converts other colour models and passes the resulting RGBA to the model"]
 
 
+def go_rgba(model, raw):
+    """color.RGBAModel.Convert for the colour models used"""
+    if model == "nrgba":
+        r, g, b, a = (raw >> 24) & 255, (raw >> 16) & 255, (raw >> 8) & 255, raw & 255
+        f = lambda c: (((c | (c << 8)) * a) // 0xff) >> 8
+        return "%02x%02x%02x%02x" % (f(r), f(g), f(b), a)
+    if model == "rgba64":
+        return "%02x%02x%02x%02x" % ((raw >> 56) & 255, (raw >> 40) & 255, (raw >> 24) & 255, (raw >> 8) & 255)
+    if model == "gray16":
+        y = (raw >> 8) & 255
+        return "%02x%02x%02xff" % (y, y, y)
+    if model == "alpha16":
+        a = (raw >> 8) & 255
+        return "%02x%02x%02x%02x" % (a, a, a, a)
+    raise KeyError(model)
+
+
 def ropt(rng):
+    if rng.below(4) == 0:
+        model = rng.choice(["nrgba", "nrgba", "rgba64", "gray16", "alpha16"])
+        raw = rng.below(1 << (32 if model == "nrgba" else 64 if model == "rgba64" else 16))
+        width = 8 if model == "nrgba" else 16 if model == "rgba64" else 4
+        return "OJ:%d:%s:%0*x:%s" % (rng.choice([0, 1, 63, rng.below(64)]), model, width, raw, go_rgba(model, raw))
     if rng.below(3) == 0:
         return "OP:" + G.rpalette(rng, premul=rng.below(2) == 0, default_ok=True)
     return "OI:%d:%s" % (rng.choice([0, 0, 1, 2, 31, 62, 63, rng.below(64)]), G.rrgba(rng) if rng.below(3) else G.rpremul(rng))
